@@ -10,10 +10,14 @@ for mp in sorted(glob.glob('/verif/seeded/*/meta.json')):
     conf=m.get('confirmed',{})
     suite=conf.get('suite_with_change','')
     suite='3514/3514' if '3514 passed; 0 failed' in suite else (m.get('suite_status','') or suite[:30])
-    rows.append((m['id'], m.get('breaks_property',''), m.get('needs_to_manifest','').replace('|','/'), dets.replace('|','/'), suite))
+    rp=os.path.join(os.path.dirname(mp),'result.json')
+    cur=''
+    if os.path.exists(rp):
+        r=json.load(open(rp)); cur=f"{r['check']} exit {r['exit_code']}"
+    rows.append((m['id'], m.get('breaks_property',''), m.get('needs_to_manifest','').replace('|','/'), dets.replace('|','/'), suite, cur))
 out=["<!-- SEED-TABLE-BEGIN -->","### 12.4 Which checks catch which changes","",
 "`tools/seedrun.sh <patch> <check>...` applies a change to /repo, runs the quick tier of the named checks and reverts; `rc=1` means exit 1 with a VIOLATION line and a replay file. The suite column is `cargo test --lib --offline` with the change applied in a scratch worktree (`tools/confirm_seed.sh`).","",
-"| change | breaks | needs, to manifest | checks run on it | suite with change |","|---|---|---|---|---|"]
+"| change | breaks | needs, to manifest | checks run on it (history) | suite with change | latest full matrix (quick tier) |","|---|---|---|---|---|---|"]
 for r in rows:
     out.append("| "+" | ".join(r)+" |")
 out.append("<!-- SEED-TABLE-END -->")
